@@ -56,8 +56,6 @@ Section Inorder.
   Hypothesis L : cmp_laws cmp.
   Variables (kzero : K) (vzero : V).
   Variables minKVs maxKVs : nat.
-  Hypothesis Hmin : 1 <= minKVs.
-  Hypothesis Hmax : 2 * minKVs <= maxKVs.
 
   Notation node := (@node K V).
   Notation ins := (ins K V cmp kzero vzero maxKVs).
@@ -140,6 +138,28 @@ Section Inorder.
     intros Hs He. apply (gt_all_snoc_eq cmp L k pre (k', v')); [|assumption].
     rewrite app_cons_assoc in Hs. eapply sorted_app_l; eassumption.
   Qed.
+
+  Lemma sm_del_absent m k : sm_contains m k = false -> sm_del m k = m.
+  Proof.
+    unfold SMap.sm_contains. induction m as [|[k' v'] m IH]; simpl; [reflexivity|].
+    destruct (cmp k k'); try discriminate; auto.
+    intros H. rewrite IH; auto.
+  Qed.
+
+  Lemma app_mid_assoc {A} (P X Y Q : list A) a : P ++ X ++ a :: Y ++ Q = P ++ (X ++ a :: Y) ++ Q.
+  Proof. rewrite <- (app_assoc X). reflexivity. Qed.
+
+  Lemma inorder_last id (kvs : list (K * V)) (A : list node) x :
+    length kvs = length A ->
+    inorder (Node id kvs (A ++ [x])) = ileft (map inorder A) kvs ++ inorder x.
+  Proof.
+    intros H. rewrite <- (app_nil_r kvs) at 1. rewrite inorder_one by auto.
+    cbn [map iright]. rewrite app_nil_r. reflexivity.
+  Qed.
+
+  Section Guarded.
+  Hypothesis Hmin : 1 <= minKVs.
+  Hypothesis Hmax : 2 * minKVs <= maxKVs.
 
   (* ---------------- Put ---------------- *)
 
@@ -291,24 +311,6 @@ Section Inorder.
 
 
   (* ---------------- Delete ---------------- *)
-
-  Lemma sm_del_absent m k : sm_contains m k = false -> sm_del m k = m.
-  Proof.
-    unfold SMap.sm_contains. induction m as [|[k' v'] m IH]; simpl; [reflexivity|].
-    destruct (cmp k k'); try discriminate; auto.
-    intros H. rewrite IH; auto.
-  Qed.
-
-  Lemma app_mid_assoc {A} (P X Y Q : list A) a : P ++ X ++ a :: Y ++ Q = P ++ (X ++ a :: Y) ++ Q.
-  Proof. rewrite <- (app_assoc X). reflexivity. Qed.
-
-  Lemma inorder_last id (kvs : list (K * V)) (A : list node) x :
-    length kvs = length A ->
-    inorder (Node id kvs (A ++ [x])) = ileft (map inorder A) kvs ++ inorder x.
-  Proof.
-    intros H. rewrite <- (app_nil_r kvs) at 1. rewrite inorder_one by auto.
-    cbn [map iright]. rewrite app_nil_r. reflexivity.
-  Qed.
 
   Lemma rotl_inorder d (c r : node) (s : K * V) :
     shaped d c -> shaped d r -> 1 <= nkeys r ->
@@ -504,7 +506,7 @@ Section Inorder.
         subst kvs cs.
         destruct (node_mid id KA KB A c B k HlA HlB Hso Hg Hl) as (Hio & Hgp & Hlp & Hsc).
         apply Forall_app in F. destruct F as [FA F]. inversion F as [|? ? [Hcm Hcs'] FB]; subst.
-        destruct (IH c k Hcs' ltac:(intros _; lia) Hsc) as [I1 I2].
+        destruct (IH c k Hcs' ltac:(intros _; nk; lia) Hsc) as [I1 I2].
         pose proof (del_shaped cmp kzero vzero minKVs maxKVs Hmin Hmax d c k Hcs'
                       ltac:(intros _; lia)) as Hsh.
         unfold del_shape in Hsh. rewrite Hd in I1, I2, Hsh. cbn [fst snd] in I1, I2, Hsh.
@@ -519,7 +521,7 @@ Section Inorder.
         subst kvs cs.
         destruct (node_mid id KA KB A c B k HlA HlB Hso Hg Hl) as (Hio & Hgp & Hlp & Hsc).
         apply Forall_app in F. destruct F as [FA F]. inversion F as [|? ? [Hcm Hcs'] FB]; subst.
-        destruct (IH c k Hcs' ltac:(intros _; lia) Hsc) as [I1 I2].
+        destruct (IH c k Hcs' ltac:(intros _; nk; lia) Hsc) as [I1 I2].
         rewrite Hd in I1, I2. cbn [fst snd] in I1, I2.
         rewrite Hio. unfold SMap.sm_contains in I2.
         rewrite (sm_del_mid cmp k _ _ _ Hgp Hlp), (sm_find_mid cmp k _ _ _ Hgp Hlp).
@@ -527,4 +529,5 @@ Section Inorder.
         unfold SMap.sm_contains. symmetry. exact I2.
   Qed.
 
+  End Guarded.
 End Inorder.
